@@ -81,10 +81,14 @@ theorem controlCycle_frame {s s' : State} (h : controlCycle s = .ok s') : Frame 
     split at h
     · cases h
     · split at h
-      · cases h; exact ⟨rfl, rfl, rfl⟩
+      · split at h
+        · cases h; exact ⟨rfl, rfl, rfl⟩
+        · cases h; exact ⟨rfl, rfl, rfl⟩
       · split at h
         · cases h
-        · cases h; exact ⟨rfl, rfl, rfl⟩
+        · split at h
+          · cases h; exact ⟨rfl, rfl, rfl⟩
+          · cases h; exact ⟨rfl, rfl, rfl⟩
 
 /-- what one call of an execute unit does to the three quantities -/
 structure EuFrame (s s' : State) : Prop where
@@ -425,15 +429,20 @@ theorem cycleM_tick {app : App} {s s' : State} {ev : Event} (h : cycleM app s = 
         · cases h
         · rename_i s3 h3
           have f3 := controlCycle_frame h3
+          have f123 := (f1.trans f2).trans f3
+          have l3 : s3.eus.length = s.eus.length := f123.len
+          have e3 : s3.executed = s.executed := f123.exe
+          have c3 : s3.cycles = s.cycles + 1 := f123.cyc
+          split at h
+          · -- the `maporder` exit
+            simp only [Except.ok.injEq, Prod.mk.injEq] at h
+            obtain ⟨rfl, _⟩ := h
+            exact ⟨l3, by omega, by omega, Or.inl (by omega)⟩
           split at h
           · cases h
           · rename_i v hv
             obtain ⟨s4, acc⟩ := v
             have f4 := eusCycle_frame _ _ _ _ _ _ hv
-            have f123 := (f1.trans f2).trans f3
-            have l3 : s3.eus.length = s.eus.length := f123.len
-            have e3 : s3.executed = s.executed := f123.exe
-            have c3 : s3.cycles = s.cycles + 1 := f123.cyc
             simp only at h
             split at h
             · simp only [Except.ok.injEq, Prod.mk.injEq] at h
